@@ -426,6 +426,17 @@ def r36(ctx: Ctx) -> RuleReport:
             rep.add('penman.layout:_preconfigure: the markers of every triple are read', pc.loc(outer), 'violation' if path else 'ok',
                     'a triple can be skipped before its markers are read (' + ' -> '.join(repr(cfg2.nodes[x]) for x in path)[:160] +
                     '): the POPs it carries are never queued, so the node it closes stays open' if path else '')
+    if len(inner) == 1:
+        outer2 = next((a for a in _ancestors(pm2, inner[0]) if isinstance(a, ast.For)), None)
+        queued = {owner_node(cfg2, pm2, m) for m in walk_local(pc.node) if _recv_call(m, 'append') and m.args and isinstance(m.args[0], ast.Tuple)
+                  and len(m.args[0].elts) == 3}
+        if outer2 is not None and queued:
+            oh2 = cfg2.node_of(outer2)
+            p2 = cfg2.path_avoiding([(oh2, 'T')], {oh2, cfg2.exit, cfg2.rexit}, lambda nd: nd.id in queued)
+            rep.add('penman.layout:_preconfigure: every triple of the graph is handed to the configuration', pc.loc(outer2), 'violation' if p2 else 'ok',
+                    'a triple can be left out of the data (' + ' -> '.join(repr(cfg2.nodes[x]) for x in p2[-3:])[:160] + '): without markers, the instance triple of a '
+                    'node that has no concept is the only thing that gives the node a site, so the variable is written as a constant and its node is lost'
+                    if p2 else '')
     key = 'penman.layout:_preconfigure: one POP is queued for every Pop marker of a triple, after the triple'
     if bad is not None:
         rep.violation(key, pc.loc(bad[0]), bad[1])
